@@ -432,6 +432,13 @@ func genC01(e *emitter, tier string) {
 		g1 := NodeJ{Op: "Gemm", Ins: []string{"xm", "wm"}, Outs: []string{"g1"}}
 		g2 := NodeJ{Op: "Gemm", Attrs: []Attr{{Name: "transB", Type: "i", I: 1}, {Name: "alpha", Type: "f", F: 2}}, Ins: []string{"xm", "wm"}, Outs: []string{"g2"}}
 		g3 := NodeJ{Op: "Gemm", Attrs: []Attr{{Name: "transA", Type: "i", I: 1}}, Ins: []string{"wm", "wm", "wm"}, Outs: []string{"g3"}}
+		cb := InitJ{Name: "cb", T: smallT("f32", []int{2, 3}, 6)}
+		g4 := NodeJ{Op: "Gemm", Attrs: []Attr{{Name: "beta", Type: "f", F: 2}}, Ins: []string{"xm", "wm", "cb"}, Outs: []string{"g4"}}
+		g5 := NodeJ{Op: "Gemm", Attrs: []Attr{{Name: "beta", Type: "f", F: -1}, {Name: "alpha", Type: "f", F: 3}}, Ins: []string{"xm", "wm", "cb"}, Outs: []string{"g5"}}
+		a6 := NodeJ{Op: "Add", Ins: []string{"cb", "cb"}, Outs: []string{"a6"}}
+		for _, nodes := range [][]NodeJ{{g4, g5, a6}, {g5, a6, g4}, {a6, g4, g5}} {
+			e.emit(graphCase("shared-weight", &GraphJ{Inputs: []VInfoJ{{Name: "xm", Dt: "f32", Dims: []any{2, 3}}}, Inits: []InitJ{wm, cb}, Nodes: nodes, Outputs: []string{"g4", "g5", "a6", "cb"}}, []NamedT{xm}))
+		}
 		r1 := NodeJ{Op: "Reshape", Ins: []string{"xm", "sh"}, Outs: []string{"r1"}}
 		r2 := NodeJ{Op: "Reshape", Ins: []string{"wm", "sh"}, Outs: []string{"r2"}}
 		for _, nodes := range [][]NodeJ{{g1, g2, g3, r1, r2}, {r2, g3, g2, r1, g1}} {
